@@ -404,6 +404,18 @@ func (b *Broker) publish(topic string, payload []byte, qos byte, retain bool, id
 }
 
 // Pending counts the messages towards the client that are not complete.
+// LoseSession makes the broker forget the session, as after a restart of the
+// broker without persistence: the next CONNACK has session-present 0 and
+// nothing is retransmitted.
+func (b *Broker) LoseSession() {
+	b.w.Mu.Lock()
+	defer b.w.Mu.Unlock()
+	b.State.Session = false
+	b.State.AwaitRel = map[uint16]bool{}
+	b.State.Out = nil
+	b.w.log(Event{Kind: "broker.session.lost"})
+}
+
 func (b *Broker) Pending() int {
 	b.w.Mu.Lock()
 	defer b.w.Mu.Unlock()
